@@ -228,8 +228,9 @@ class Check(core.PropertyCheck):
 
     def _work(self, tier):
         if tier == "quick":
-            w = {(f, fld, 2) for f in ("curl", "httpie") for fld in self.FIELDS}
-            w |= {("raw", fld, 2) for fld in ("method", "path", "hname", "hval", "body")}
+            w = {(f, fld, 2 if fld in ("body", "hval", "path", "hname") else 1)
+                 for f in ("curl", "httpie") for fld in self.FIELDS}
+            w |= {("raw", fld, 2 if fld == "body" else 1) for fld in ("method", "path", "hname", "hval", "body")}
             return w
         w = {(f, fld, 3 if (f == "curl" and fld in ("body", "hval", "path")) else 2)
              for f in ("curl", "httpie") for fld in self.FIELDS}
@@ -257,7 +258,7 @@ class Check(core.PropertyCheck):
         rng = random.Random(ctx.seed + 48)
         g = models[0].graph
         behs = g.all_paths(2)
-        cap = 1300 if ctx.quick else 9000
+        cap = 900 if ctx.quick else 9000
         if len(behs) > cap:
             ctx.rng.shuffle(behs)
             behs = behs[:cap]
@@ -271,7 +272,7 @@ class Check(core.PropertyCheck):
                 fmt, (field, s) = "raw", args
             yield self._scenario(fmt, field, s, rng.randrange(1 << 30), predicted=core.predicted_events(b))
         # beyond the model: strings of length 3..6 over the alphabet in one field (no prediction)
-        n_long = 300 if ctx.quick else 12000
+        n_long = 200 if ctx.quick else 12000
         for _ in range(n_long):
             fmt = rng.choice(("curl", "curl", "httpie", "raw"))
             field = rng.choice(self.FIELDS[:6] if fmt != "raw" else ("method", "path", "hname", "hval", "body"))
@@ -286,7 +287,7 @@ class Check(core.PropertyCheck):
                         continue
                     yield core.Scenario({"fmt": fmt, "mixed": {field: pl}, "seed": rng.randrange(1 << 30)}, source="payload")
         # mixed requests: several fields at once, several headers, accept-encoding, preserve_original_ip, binary bodies
-        for _ in range(250 if ctx.quick else 8000):
+        for _ in range(200 if ctx.quick else 8000):
             fmt = rng.choice(("curl", "curl", "httpie", "raw"))
             mixed = {}
             for field in ("method", "host", "path", "body"):
